@@ -684,7 +684,7 @@ func (config *Config) UpdateFromConfigUpdate(configUpdate *proto.ConfigUpdate) (
 
 // UpdateFrom parses and merges the rawData from one particular source into this config object.
 // If there is a config value already loaded from a higher-priority source, then
-// the new value will be ignored (after validation).
+// the new value will be ignored (it is not parsed and cannot cause an error).
 func (config *Config) UpdateFrom(rawData map[string]string, source Source) (changed bool, err error) {
 	log.Infof("Merging in config from %v: %v", source, rawData)
 	// Defensively take a copy of the raw data, in case we've been handed
@@ -823,6 +823,16 @@ func (config *Config) resolve() (changedFields set.Set[string], err error) {
 				continue valueLoop
 			}
 
+			if source < currentSource {
+				// Shadowed by a value from a higher-priority source: the value must not
+				// affect the result, so don't parse it (a parse failure could otherwise be
+				// fatal even though the value is never used).
+				log.Infof("Skipping config value for %v from %v; "+
+					"already have a value from %v", name,
+					source, currentSource)
+				continue
+			}
+
 			log.Infof("Parsing value for %v: %v (from %v)",
 				name, rawValue, source)
 			var value any
@@ -861,12 +871,6 @@ func (config *Config) resolve() (changedFields set.Set[string], err error) {
 
 			log.Infof("Parsed value for %v: %v (from %v)",
 				name, value, source)
-			if source < currentSource {
-				log.Infof("Skipping config value for %v from %v; "+
-					"already have a value from %v", name,
-					source, currentSource)
-				continue
-			}
 			field := reflect.ValueOf(config).Elem().FieldByName(name)
 			field.Set(reflect.ValueOf(value))
 			newRawValues[name] = rawValue
